@@ -565,36 +565,73 @@ func opsCoq(ops []op) string {
 	return "[" + strings.Join(s, "; ") + "]"
 }
 
-// watchdog runs f and reports a hang instead of blocking forever.
-// stuck is raised by the first hang: the goroutines of a stuck scenario stay around, so the remaining
+// proxy collects what a scenario wants to tell the writer; it is applied only if the attempt finished
+// within its watchdog (an abandoned attempt may still be running and must not touch the writer).
+type proxy struct{ ops []func(w *vgen.Writer) }
+
+func (p *proxy) Add(term string, desc any, kind string, nontrivial bool) {
+	p.ops = append(p.ops, func(w *vgen.Writer) { w.Add(term, desc, kind, nontrivial) })
+}
+func (p *proxy) Tally(label string) { p.ops = append(p.ops, func(w *vgen.Writer) { w.Tally(label) }) }
+func (p *proxy) Violation(what string, desc any) {
+	p.ops = append(p.ops, func(w *vgen.Writer) { w.Violation(what, desc) })
+}
+
+// stuck is raised by a genuine hang: the goroutines of a stuck scenario stay around, so the remaining
 // scenarios are skipped (the verdict is a VIOLATION already).
 var stuck atomic.Bool
+var inconclusiveRuns atomic.Int64
 
-func watchdog(w *vgen.Writer, what string, desc any, d time.Duration, f func()) bool {
-	if stuck.Load() {
-		return false
+// machineIdle: 1-minute load average below half the number of CPUs.
+func machineIdle() bool {
+	b, err := os.ReadFile("/proc/loadavg")
+	if err != nil {
+		return true
 	}
-	done := make(chan struct{})
-	var pan any
-	go func() {
-		defer close(done)
-		defer func() { pan = recover() }()
-		f()
-	}()
-	select {
-	case <-done:
-		if pan != nil {
-			w.Violation(fmt.Sprintf("panic in %s: %v", what, pan), desc)
+	var l1 float64
+	fmt.Sscan(string(b), &l1)
+	return l1 < float64(runtime.NumCPU())/2
+}
+
+// watchdog runs scenario f and never blocks forever. A scenario that exceeds its watchdog (expected:
+// milliseconds) on an idle machine is a genuine hang: "Stuck". On a loaded machine it is inconclusive: it
+// is re-run alone up to twice with a longer watchdog; still too slow and the machine still loaded -> dropped
+// from the verdict and counted; too slow on a machine that has become idle -> Stuck.
+func watchdog(w *vgen.Writer, what string, desc any, d time.Duration, f func(w *proxy)) bool {
+	for attempt := 0; attempt < 3; attempt++ {
+		if stuck.Load() {
 			return false
 		}
-		return true
-	case <-time.After(d):
-		stuck.Store(true)
-		buf := make([]byte, 1<<16)
-		n := runtime.Stack(buf, true)
-		w.Violation("Stuck: "+what+" did not finish within "+d.String()+" (a span call never returned: deadlock / lock left held)", map[string]any{"case": desc, "goroutines": string(buf[:n])})
-		return false
+		px := &proxy{}
+		done := make(chan any, 1)
+		go func() {
+			defer func() { done <- recover() }()
+			f(px)
+		}()
+		select {
+		case pan := <-done:
+			if pan != nil {
+				w.Violation(fmt.Sprintf("panic in %s: %v", what, pan), desc)
+				return false
+			}
+			for _, op := range px.ops {
+				op(w)
+			}
+			return true
+		case <-time.After(d << attempt):
+		}
+		if machineIdle() {
+			stuck.Store(true)
+			buf := make([]byte, 1<<16)
+			n := runtime.Stack(buf, true)
+			w.Violation("Stuck: "+what+" did not finish within "+(d<<attempt).String()+" on an idle machine (a span call never returned: deadlock / lock left held)",
+				map[string]any{"case": desc, "goroutines": string(buf[:n])})
+			return false
+		}
 	}
+	inconclusiveRuns.Add(1)
+	w.Tally("inconclusive:watchdog under load:" + what)
+	return false
 }
 
 // seqCase: the deterministic fragment.
@@ -605,7 +642,7 @@ func seqCase(w *vgen.Writer, r *vgen.Rand, tracing bool, P int, ops []op, kind s
 		names = append(names, o.String())
 	}
 	desc["ops"] = names
-	watchdog(w, "sequential program", desc, 20*time.Second, func() {
+	watchdog(w, "sequential program", desc, 20*time.Second, func(w *proxy) {
 		e := newEnvLim(P, lims)
 		sp, st := e.startSpan()
 		var calls []rec
@@ -673,7 +710,7 @@ func raceCase(w *vgen.Writer, r *vgen.Rand, tracing bool, kind string, storm boo
 		}
 	}
 	desc := map[string]any{"fragment": "racing", "processors": P, "spans": K, "goroutines": G, "runtime_trace": tracing, "storm": storm, "limits": lims}
-	ok := watchdog(w, "racing goroutines", desc, 60*time.Second, func() {
+	ok := watchdog(w, "racing goroutines", desc, 60*time.Second, func(w *proxy) {
 		e := newEnvLim(P, lims)
 		spans := make([]trace.Span, K)
 		tracks := make([]*spanTrack, K)
@@ -762,7 +799,7 @@ func stormLoop(w *vgen.Writer, r *vgen.Rand, tracing bool, trials int, kind stri
 			n = min(n, 400) // these batches sleep per span: keep them short
 		}
 		desc := map[string]any{"fragment": "end-storm", "runtime_trace": tracing, "spans": n, "goroutines": G, "processors": P, "limits": lims, "end_while_panicking": panicking, "gated_child": gated}
-		watchdog(w, "End storm", desc, 120*time.Second, func() {
+		watchdog(w, "End storm", desc, 120*time.Second, func(w *proxy) {
 			e := newEnvLim(P, lims)
 			spans := make([]trace.Span, n)
 			tracks := make([]*spanTrack, n)
@@ -949,6 +986,7 @@ func main() {
 	w.Extra["storm_trials"] = nStormCorpus + nStorm/2*2
 	w.Extra["storm_sample_rate"] = fmt.Sprintf("1/%d of unremarkable storm trials are sent to Coq; every trial with a delivery count other than P or more than one snapshot is sent", stormSample)
 	w.Extra["anomalous_trials"] = anomalies
+	w.Extra["inconclusive"] = inconclusiveRuns.Load()
 
 	if o.Tier == "thorough" && !*raceChild {
 		raceTier(w, o)
